@@ -409,6 +409,11 @@ selectmechanism:
 			return mask, nil, err
 		}
 		if !more && success {
+			// The receiving entity signalled success although the mechanism
+			// still has a message for it: the exchange did not complete.
+			if len(resp) != 0 {
+				return mask, nil, errUnexpectedPayload
+			}
 			// We're done with SASL and we're successful
 			break
 		}
